@@ -90,12 +90,12 @@ fn report_panic(rep: &mut Report, decoder: &str, state: &str, class: &str, p: &p
     );
 }
 
-fn boundary_u16s() -> Vec<u16> {
+pub fn boundary_u16s() -> Vec<u16> {
     vec![0, 1, 2, 15, 16, 17, 255, 256, 900, 901, 0x3FFF, 0x4000, 0x7FFF, 0x8000, 0xFFFE, 0xFFFF]
 }
 
 /// Address-field variants: every ATYP, truncated and overlong domain lengths.
-fn address_variants(rng: &mut Rng) -> Vec<Vec<u8>> {
+pub fn address_variants(rng: &mut Rng) -> Vec<Vec<u8>> {
     let mut v: Vec<Vec<u8>> = vec![vec![]];
     for atyp in 0..=255u8 {
         let mut a = vec![atyp];
@@ -118,7 +118,7 @@ fn address_variants(rng: &mut Rng) -> Vec<Vec<u8>> {
 }
 
 /// Plaintext bodies that follow an address field in the various headers: padding-length games.
-fn with_tail_variants(addr: &[u8], rng: &mut Rng) -> Vec<Vec<u8>> {
+pub fn with_tail_variants(addr: &[u8], rng: &mut Rng) -> Vec<Vec<u8>> {
     let mut v = vec![addr.to_vec()];
     for pl in boundary_u16s() {
         for have in [0usize, 1, pl as usize / 2, pl as usize] {
@@ -509,28 +509,19 @@ pub(super) fn authenticated_malformed_sampled(seed: u64, i: u64, cfg: &Cfg, role
     }
 }
 
-/// Shadowsocks UDP decoders (both roles): random, exhaustive-short and authenticated-malformed datagrams.
-fn ss_udp_case(seed: u64, i: u64, rep: &mut Report) {
-    let mut rng = Rng::derive(seed, 0xC07D, i);
-    let m = ss::ALL_METHODS[(i % 7) as usize];
-    let n_users = if m.supports_eih() && (i / 7) % 2 == 1 { 2 } else { 0 };
-    let cfg = Cfg::random(&mut rng, Proto::Ss(m), n_users);
-    let now = 1_700_000_000;
-    pin_clock(now);
-    let server = real::ss_udp_server(&cfg).unwrap();
-    let mut client = real::ss_udp_client(&cfg);
+/// Hostile datagrams for the Shadowsocks UDP decoders of both roles: random ones and well-authenticated-but-malformed
+/// ones (made with the reference implementation under the right keys). (class, to_server, bytes); `csid` is the
+/// client session id replies must name to get past the session check.
+pub fn ss_udp_hostile_datagrams(cfg: &Cfg, m: ss::Method, now: u64, csid: u64, rng: &mut Rng, phase: usize) -> Vec<(&'static str, bool, Vec<u8>)> {
     let keys = cfg.ref_client_keys();
-    let (csid, _, _) = client.session_ids();
-    rep.distinct.insert(0xF000_0000 + i);
-    panicmon::set_context(&format!("ss-udp/{}", m.name()));
-    let mut datagrams: Vec<(&str, bool, Vec<u8>)> = Vec::new(); // (class, to_server, bytes)
+    let mut datagrams: Vec<(&'static str, bool, Vec<u8>)> = Vec::new(); // (class, to_server, bytes)
     for len in (0..=120).chain([200, 1500, 65507]) {
         datagrams.push(("random", true, rng.bytes(len)));
         datagrams.push(("random", false, rng.bytes(len)));
     }
-    let addrs = address_variants(&mut rng);
-    for a in addrs.iter().skip((i % 3) as usize).step_by(3) {
-        for tail in with_tail_variants(a, &mut rng).into_iter().take(4) {
+    let addrs = address_variants(rng);
+    for a in addrs.iter().skip(phase).step_by(3) {
+        for tail in with_tail_variants(a, rng).into_iter().take(4) {
             if m.is_2022() {
                 // request bodies: type, timestamp, padding length, padding, address, payload - cut and bent everywhere
                 for body in [
@@ -559,6 +550,24 @@ fn ss_udp_case(seed: u64, i: u64, rep: &mut Report) {
             }
         }
     }
+    datagrams
+}
+
+/// Shadowsocks UDP decoders (both roles): random, exhaustive-short and authenticated-malformed datagrams.
+fn ss_udp_case(seed: u64, i: u64, rep: &mut Report) {
+    let mut rng = Rng::derive(seed, 0xC07D, i);
+    let m = ss::ALL_METHODS[(i % 7) as usize];
+    let n_users = if m.supports_eih() && (i / 7) % 2 == 1 { 2 } else { 0 };
+    let cfg = Cfg::random(&mut rng, Proto::Ss(m), n_users);
+    let now = 1_700_000_000;
+    pin_clock(now);
+    let server = real::ss_udp_server(&cfg).unwrap();
+    let mut client = real::ss_udp_client(&cfg);
+    let keys = cfg.ref_client_keys();
+    let (csid, _, _) = client.session_ids();
+    rep.distinct.insert(0xF000_0000 + i);
+    panicmon::set_context(&format!("ss-udp/{}", m.name()));
+    let datagrams = ss_udp_hostile_datagrams(&cfg, m, now, csid, &mut rng, (i % 3) as usize);
     for (class, to_server, d) in datagrams {
         let mut src = BytesMut::from(&d[..]);
         rep.evaluations += 1;
